@@ -60,6 +60,27 @@ def run(ck):
     C09.role_agreement(ck, F, rid="C11.R8", only=("EnvFilter", "Targets"))
     from rulekit.query import builder_carry_over
     builder_carry_over(ck, F, "C11.R9", ("tracing_subscriber::filter::env::builder::",))
+    # ... and the one option that changes what a value pattern *means* is honoured where the filter is built: with
+    # `with_regex(false)` every directive's patterns are turned into literal matchers, for every directive
+    fd = F.body("tracing_subscriber::filter::env::builder::Builder::from_directives")
+    if ck.anchor("C11.R9", "Builder::from_directives", fd):
+        from rulekit.query import guards_of
+        key = "Builder::from_directives: with regex support off every directive is made literal (deregexify)"
+        sites = [(x, bb) for x in [fd] + F.closures_of(fd) for bb, t in x.calls() if t["callee"].get("method") == "deregexify"]
+        ok = len(sites) == 1
+        why = "%d deregexify calls" % len(sites)
+        if ok:
+            g, _ = guards_of(sites[0][0], sites[0][1])
+            flags = [v for t, v in g if t.endswith(".regex")]
+            other = [t for t, v in g if not t.endswith(".regex") and not t.startswith("discr(next(") and t not in ("0", "1")]
+            if not flags or any(v not in (0, False) for v in flags):
+                ok, why = False, "deregexify does not run exactly when `regex` is false (guards %s)" % sorted(t[:40] for t, v in g)
+            elif other:
+                ok, why = False, "deregexify additionally depends on %s" % other
+        if ok:
+            ck.ok("C11.R9", key, fn=fd.path)
+        else:
+            ck.bad("C11.R9", key, where(fd.raw["sp"]), why + ": `with_regex(false)` is documented to match field values literally; patterns from untrusted input stay regular expressions", fn=fd.path)
     C08.envfilter_interest(ck, F, rid="C11.R10")
     r11(ck, F)
     r12(ck, F)
